@@ -33,6 +33,7 @@ type c09Case struct {
 	HasHdr   bool   `json:",omitempty"` // server: header present at all
 	Carrier  string `json:",omitempty"`
 	StaleMD  string `json:",omitempty"` // client/e2e: the caller's outgoing metadata already carries a grpc-timeout key (e.g. forwarded by a gateway)
+	GapUs    int    `json:",omitempty"` // client: a second call is made this much later under the same context
 	CredUs   int    `json:",omitempty"` // e2e: the call carries per-RPC credentials whose callback takes this long (token refresh); that is not transit time
 	ParentNs int64  `json:",omitempty"` // server: the HTTP request context has its own deadline this far ahead (e.g. http.TimeoutHandler)
 }
@@ -99,42 +100,66 @@ func c09Client(c c09Case, o *Outcome) *Outcome {
 		ctx = metadata.NewOutgoingContext(ctx, metadata.Pairs("grpc-timeout", c.StaleMD, "zz-other", "1"))
 		o.class("stale-grpc-timeout-in-metadata")
 	}
-	if c.Stream {
-		cctx, cancel := context.WithCancel(ctx)
-		defer cancel()
-		cs, err := ch.NewStream(cctx, streamDescOf(kServerStream), mServerStream)
-		if err == nil {
-			cs.Header() // returns once the round trip was made
-		}
-	} else {
-		ch.Invoke(ctx, mUnary, &pb.Message{}, new(pb.Message))
+	// one call, then (Gap) a second one later under the very same context: the timeout sent is the time left
+	// when each call is made
+	calls := 1
+	if c.GapUs > 0 && !c.NoDL {
+		calls = 2
+		o.class("client/second-call-under-the-same-deadline")
 	}
+	for k := 0; k < calls; k++ {
+		if k > 0 {
+			time.Sleep(time.Duration(c.GapUs) * time.Microsecond)
+			mu.Lock()
+			t1, hdr = time.Time{}, nil
+			mu.Unlock()
+			t0 = time.Now()
+		}
+		if c.Stream {
+			cctx, cancel := context.WithCancel(ctx)
+			cs, err := ch.NewStream(cctx, streamDescOf(kServerStream), mServerStream)
+			if err == nil {
+				cs.Header() // returns once the round trip was made
+			}
+			cancel()
+		} else {
+			ch.Invoke(ctx, mUnary, &pb.Message{}, new(pb.Message))
+		}
+		if why := c09ClientJudge(c, o, &mu, &t1, &hdr, t0, D, k); why != "" {
+			return o.failf("%s", why)
+		}
+	}
+	return o
+}
+
+func c09ClientJudge(c c09Case, o *Outcome, mu *sync.Mutex, pt1 *time.Time, phdr *[]string, t0, D time.Time, k int) string {
 	mu.Lock()
 	defer mu.Unlock()
-	o.Observed = map[string]interface{}{"header": hdr, "reached_transport": !t1.IsZero()}
+	t1, hdr := *pt1, *phdr
+	o.Observed = map[string]interface{}{"header": hdr, "reached_transport": !t1.IsZero(), "call": k + 1}
 	if t1.IsZero() {
 		// the call may legitimately fail before the request is issued when the deadline has passed
-		if c.NoDL || time.Duration(c.RemainNs) > 50*time.Millisecond {
-			return o.failf("request never reached the transport")
+		if c.NoDL || D.Sub(t0) > 50*time.Millisecond {
+			return fmt.Sprintf("call %d: request never reached the transport", k+1)
 		}
-		return o
+		return ""
 	}
 	if c.NoDL {
 		if len(hdr) != 0 && c.StaleMD == "" {
-			return o.failf("caller has no deadline but GRPC-Timeout %q was sent", hdr)
+			return fmt.Sprintf("caller has no deadline but GRPC-Timeout %q was sent", hdr)
 		}
-		return o
+		return ""
 	}
 	if len(hdr) != 1 {
-		return o.failf("caller deadline in %v: GRPC-Timeout headers %q", time.Duration(c.RemainNs), hdr)
+		return fmt.Sprintf("caller deadline in %v: GRPC-Timeout headers %q", time.Duration(c.RemainNs), hdr)
 	}
 	h := hdr[0]
 	if len(h) < 2 || h[len(h)-1] != 'm' {
-		return o.failf("GRPC-Timeout %q is not of the form <millis>m", h)
+		return fmt.Sprintf("GRPC-Timeout %q is not of the form <millis>m", h)
 	}
 	v, err := strconv.ParseInt(h[:len(h)-1], 10, 64)
 	if err != nil {
-		return o.failf("GRPC-Timeout %q: %v", h, err)
+		return fmt.Sprintf("GRPC-Timeout %q: %v", h, err)
 	}
 	lo := int64(D.Sub(t1) / time.Millisecond)
 	hi := int64(D.Sub(t0) / time.Millisecond)
@@ -145,9 +170,9 @@ func c09Client(c c09Case, o *Outcome) *Outcome {
 		hi = 1
 	}
 	if v < lo || v > hi {
-		return o.failf("remaining %v: GRPC-Timeout %q outside [%d, %d] ms", time.Duration(c.RemainNs), h, lo, hi)
+		return fmt.Sprintf("call %d, %v before the deadline: GRPC-Timeout %q outside [%d, %d] ms", k+1, D.Sub(t0), h, lo, hi)
 	}
-	return o
+	return ""
 }
 
 func c09Server(c c09Case, o *Outcome) *Outcome {
@@ -427,6 +452,9 @@ func genC09(t *rapid.T) c09Case {
 		// log-uniform 50us .. 10 years
 		exp := rapid.Float64Range(math.Log(50e3), math.Log(10*365*24*3600e9)).Draw(t, "log-remaining")
 		c.RemainNs = int64(math.Exp(exp))
+		if rapid.IntRange(0, 3).Draw(t, "secondcall") == 0 {
+			c.GapUs = rapid.SampledFrom([]int{1500, 3000, 7000}).Draw(t, "gapus")
+		}
 		return c
 	case 3:
 		c := c09Case{Mode: "e2e", Stream: rapid.Bool().Draw(t, "stream"), Carrier: rapid.SampledFrom([]string{cHTTP, cHTTPMux, cHTTPPer}).Draw(t, "carrier"), StaleMD: rapid.SampledFrom([]string{"", "", "1H", "99999999H"}).Draw(t, "stalemd")}
